@@ -1,5 +1,6 @@
 import TextxVerif.Proofs.GenFile
 import TextxVerif.Proofs.GenFileOps
+import TextxVerif.Proofs.GenFileFaults
 /-!
 # C31 — generated output files are all-or-nothing
 
@@ -307,5 +308,85 @@ example : program (.out 0) [1, 2] .none =
 -- an intermediate state really differs from the start (in the temporary sibling only)
 example : runOps exOld ((program (.out 0) [1, 2] .none).1.take 2) (.tmp 0) = some [.full 1] := by decide
 example : runOps exOld ((program (.out 0) [1, 2] .none).1.take 2) (.out 0) = some [.full 9] := by decide
+
+/-! ## several failing calls in one run (a failure that does not go away) -/
+
+/-- **Any set of failing calls.**  Let any subset of the fallible calls of one export raise (`Faults`: the
+`open`, each `write`, the flush of every `close`, the `os.replace`) — in particular a *persistent* failure,
+where the first failing `write` / flush is followed by a failing flush when the file is closed.  The export
+ends exactly as the export with the single crash point `f.first` (the first failing call that is reached):
+every statement about `exportNew` holds for every schedule. -/
+theorem C31_faults (fs : FS) (n : Nat) (chunks : List Nat) (f : Faults) :
+    exportFaults fs (.out n) chunks f = exportNew fs (.out n) chunks (f.first chunks.length) :=
+  exportFaults_eq fs (.out n) chunks f
+
+/-- **All-or-nothing under any failure schedule**, stated without `exportNew`: the export returns normally
+iff none of the calls it makes raises; then the output file holds the complete content; otherwise no path
+but the temporary sibling changes; the temporary sibling never stays. -/
+theorem C31_faults_atomic (fs : FS) (n : Nat) (chunks : List Nat) (f : Faults) :
+    ((exportFaults fs (.out n) chunks f).2 = true ↔
+      f.atOpen = false ∧ (∀ k, k < chunks.length → f.atWrite k = none) ∧ f.atClose = false ∧ f.atReplace = false) ∧
+    ((exportFaults fs (.out n) chunks f).2 = true →
+      (exportFaults fs (.out n) chunks f).1 (.out n) = some (fullContent chunks)) ∧
+    ((exportFaults fs (.out n) chunks f).2 = false →
+      ∀ q, q ≠ .tmp n → (exportFaults fs (.out n) chunks f).1 q = fs q) ∧
+    (exportFaults fs (.out n) chunks f).1 (.tmp n) = none := by
+  refine ⟨?_, ?_, ?_, ?_⟩
+  · unfold exportFaults
+    by_cases ho : f.atOpen = true
+    · simp [ho]
+    · simp only [ho, Bool.false_eq_true, ↓reduceIte]
+      cases hw : firstWrite f 0 chunks.length with
+      | none =>
+        have hall := firstWrite_none f _ 0 hw
+        rw [writeLoop_none f chunks 0 [] (fun j h1 h2 => hall j h1 (by omega))]
+        have hall' : ∀ k, k < chunks.length → f.atWrite k = none := fun k hk => hall k (Nat.zero_le _) (by omega)
+        cases hc : f.atClose <;> cases hr : f.atReplace <;> simp <;> exact hall'
+      | some kb =>
+        obtain ⟨k, b⟩ := kb
+        obtain ⟨h1, h2, h3, h4⟩ := firstWrite_some f _ 0 k b hw
+        rw [writeLoop_some f chunks 0 [] k b h1 (by omega) h3 h4]
+        have hk : k < chunks.length := by omega
+        simp only [Bool.not_false, Bool.true_or, ↓reduceIte, Bool.false_eq_true, false_iff]
+        intro hcon
+        have := hcon.2.1 k hk
+        rw [h3] at this
+        cases this
+  · intro hok
+    rw [C31_faults] at hok ⊢
+    exact ((C31_complete fs n chunks _).2 hok).1
+  · intro hfail q hq
+    rw [C31_faults] at hfail ⊢
+    exact (C31_atomic fs n chunks _ hfail).2.2 q hq
+  · rw [C31_faults]
+    cases hok : (exportNew fs (.out n) chunks (f.first chunks.length)).2 with
+    | true => exact ((C31_complete fs n chunks _).2 hok).2.1
+    | false => exact (C31_atomic fs n chunks _ hok).2.1
+
+/-- **Persistent failures.**  The schedule the fault injection produces — the named call fails and, when
+`persist`, every `write` and every flush / close after it fails too — gives the same end state and the same
+outcome as the single crash point, for whole histories as well: `runAll`, and with it every history theorem
+above, is the same for one-shot and for persistent failures. -/
+theorem C31_persistent (persist : Bool) :
+    (∀ fs p chunks crash, exportMode persist fs p chunks crash = exportNew fs p chunks crash) ∧
+    (∀ fs runs, runAll (exportMode persist) fs runs = runAll exportNew fs runs) := by
+  have h : exportMode persist = exportNew := by
+    funext fs p chunks crash
+    exact exportMode_eq persist fs p chunks crash
+  exact ⟨fun fs p chunks crash => exportMode_eq persist fs p chunks crash, fun fs runs => by rw [h]⟩
+
+-- a persistent failure from the second write on: that write, every later one and the close raise
+example : (Faults.ofCrash true 3 (.atWrite 1 true)).atWrite 2 = some false := by decide
+example : (Faults.ofCrash true 3 (.atWrite 1 true)).atClose = true := by decide
+example : exportFaults exOld (.out 0) [1, 2, 3] (Faults.ofCrash true 3 (.atWrite 1 true)) =
+    exportNew exOld (.out 0) [1, 2, 3] (.atWrite 1 true) := C31_faults exOld 0 [1, 2, 3] _
+example : (exportFaults exOld (.out 0) [1, 2, 3] (Faults.ofCrash true 3 (.atWrite 1 true))).1 (.out 0) =
+    some [.full 9] := by decide
+example : (exportFaults exOld (.out 0) [1, 2, 3] (Faults.ofCrash true 3 (.atWrite 1 true))).1 (.tmp 0) = none := by
+  decide
+-- a schedule that is no single crash point: the close and the replace fail
+example : (exportFaults exOld (.out 0) [1, 2] ⟨false, fun _ => none, true, true⟩).2 = false := by decide
+example : (exportFaults exOld (.out 0) [1, 2] ⟨false, fun _ => none, false, false⟩).1 (.out 0) =
+    some (fullContent [1, 2]) := by decide
 
 end GenFile
